@@ -652,14 +652,14 @@ impl Arena {
     size as int <= u32::MAX as int - 8,
   ensures
     old(self).ro ==> r.is_err() && *final(st) == *old(st) && final(self).cap == old(self).cap, // [C18 C09]
-    r.is_err() ==> *final(st) == *old(st) && final(self).cap == old(self).cap, // [C18]
+    r.is_err() ==> final(self).cap == old(self).cap, // [C18] (the arena state after an I/O failure inside Memory::truncate is not specified)
     r.is_ok() ==> final(self).cap as int == (if size as int >= old(st)@.allocated { size as int } else { old(st)@.allocated }), // [C18]
     final(self).data_offset == old(self).data_offset && final(self).ro == old(self).ro && final(self).freelist == old(self).freelist
       && final(self).max_retries == old(self).max_retries && final(self).reserved == old(self).reserved, // [C18]
-    final(st)@.allocated == old(st)@.allocated && final(st)@.discarded == old(st)@.discarded && final(st)@.min_seg == old(st)@.min_seg
+    r.is_ok() ==> final(st)@.allocated == old(st)@.allocated && final(st)@.discarded == old(st)@.discarded && final(st)@.min_seg == old(st)@.min_seg
       && final(st)@.list == old(st)@.list && final(st)@.sentinel == old(st)@.sentinel, // [C18]
-    final(st)@.bytes.subrange(0, old(st)@.allocated) == old(st)@.bytes.subrange(0, old(st)@.allocated), // [C18]
-    wf(final(self).av(), final(st)@), // [C18 C10]
+    r.is_ok() ==> final(st)@.bytes.subrange(0, old(st)@.allocated) == old(st)@.bytes.subrange(0, old(st)@.allocated), // [C18]
+    r.is_ok() ==> wf(final(self).av(), final(st)@), // [C18 C10]
 //@after 1 /self\.cap = /
       proof { lemma_truncate_wf(old(self).av(), self.av(), old(st)@, st@); }
 //@@end
